@@ -43,7 +43,8 @@ Record meaning := { m_n : nat; m_default : option (list node); m_body : list nod
 Definition frame := list (Z * meaning).
 Record env := { frames : list frame;           (* innermost first; the last one is the global frame *)
                 counters : list (Z * Z);
-                switches : list (Z * bool) }.
+                switches : list (Z * bool);
+                steps : nat }.                  (* evaluation budget left: a program that needs more is given up (never compared) *)
 
 Fixpoint alookup {A} (k : Z) (l : list (Z * A)) : option A :=
   match l with [] => None | (k', v) :: r => if k =? k' then Some v else alookup k r end.
@@ -135,6 +136,8 @@ Fixpoint eval (fuel : nat) (e : env) (out : list Z) (ns : list node) : outcome :
   match ns with
   | [] => Ok e out
   | n :: rest =>
+    match steps e with O => OutOfFuel | S budget =>
+    let e := {| frames := frames e; counters := counters e; switches := switches e; steps := budget |} in
     let continue e' out' := eval f e' out' rest in
     match n with
     | NWord w => continue e (w :: out)
@@ -166,16 +169,16 @@ Fixpoint eval (fuel : nat) (e : env) (out : list Z) (ns : list node) : outcome :
         | _, _ => Stuck 1
         end
     | NGroup b =>
-        match eval f {| frames := [] :: frames e; counters := counters e; switches := switches e |} out b with
-        | Ok e' out' => continue {| frames := tl (frames e'); counters := counters e'; switches := switches e' |} out'
+        match eval f {| frames := [] :: frames e; counters := counters e; switches := switches e; steps := steps e |} out b with
+        | Ok e' out' => continue {| frames := tl (frames e'); counters := counters e'; switches := switches e'; steps := steps e' |} out'
         | other => other
         end
     | NDef g nm np d b =>
         let m := {| m_n := np; m_default := d; m_body := b |} in
-        continue {| frames := (if g then def_global else def_local) nm m (frames e); counters := counters e; switches := switches e |} out
+        continue {| frames := (if g then def_global else def_local) nm m (frames e); counters := counters e; switches := switches e; steps := steps e |} out
     | NLet nm tg =>
         match lookup_frames tg (frames e) with
-        | Some m => continue {| frames := def_local nm m (frames e); counters := counters e; switches := switches e |} out
+        | Some m => continue {| frames := def_local nm m (frames e); counters := counters e; switches := switches e; steps := steps e |} out
         | None => Stuck 1
         end
     | NCall nm o a =>
@@ -204,17 +207,18 @@ Fixpoint eval (fuel : nat) (e : env) (out : list Z) (ns : list node) : outcome :
         let b := if (0 <=? z) && (z <? Z.of_nat (length bs)) then nth (Z.to_nat z) bs []
                  else match el with Some x => x | None => [] end in
         match eval f e out b with Ok e' out' => continue e' out' | other => other end
-    | NSetSwitch nm b => continue {| frames := frames e; counters := counters e; switches := aset nm b (switches e) |} out
+    | NSetSwitch nm b => continue {| frames := frames e; counters := counters e; switches := aset nm b (switches e); steps := steps e |} out
     | NNewSwitch nm =>
         continue {| frames := frames e; counters := counters e;
-                    switches := match alookup nm (switches e) with Some _ => switches e | None => aset nm false (switches e) end |} out
-    | NStep c => continue {| frames := frames e; counters := aset c (cnt e c + 1) (counters e); switches := switches e |} out
-    | NSetC c z => continue {| frames := frames e; counters := aset c z (counters e); switches := switches e |} out
-    | NAddC c z => continue {| frames := frames e; counters := aset c (cnt e c + z) (counters e); switches := switches e |} out
-    end
+                    switches := match alookup nm (switches e) with Some _ => switches e | None => aset nm false (switches e) end;
+                    steps := steps e |} out
+    | NStep c => continue {| frames := frames e; counters := aset c (cnt e c + 1) (counters e); switches := switches e; steps := steps e |} out
+    | NSetC c z => continue {| frames := frames e; counters := aset c z (counters e); switches := switches e; steps := steps e |} out
+    | NAddC c z => continue {| frames := frames e; counters := aset c (cnt e c + z) (counters e); switches := switches e; steps := steps e |} out
+    end end
   end end.
 
-Definition empty_env : env := {| frames := [[]]; counters := []; switches := [] |}.
+Definition empty_env : env := {| frames := [[]]; counters := []; switches := []; steps := Nat.mul 200 150 |}.
 Definition den (fuel : nat) (p : list node) : outcome := eval fuel empty_env [] p.
 
 (* ---- wire format ---- *)
